@@ -2,6 +2,8 @@
 
 package bmc
 
+import "github.com/gebn/bmc/pkg/ipmi"
+
 // Contracts for package bmc (machine-checked by /verif/engine; see /verif/DESIGN.md).
 
 // ---- cipher_suites.go
@@ -44,6 +46,8 @@ package bmc
 //@ func (*V2Sessionless).buildAndSendCommand$1
 //@ props C05 C09 C10 C11 C18
 //@ requires [conn.valid] !isnil(s) && !isnil(s.buffer) && !isnil(s.transport) && !isnil(c) && !isnil(s.decode) && !isnil(ctx) && bufValid(s.buffer)
+//@ requires [inv.conn] connValid(s)
+//@ ensures [inv.conn] connValid(s)
 //@ at Transport).Send assert [C09.null-session] s.v2SessionLayer.ID == old(s.v2SessionLayer.ID) && s.v2SessionLayer.Sequence == old(s.v2SessionLayer.Sequence)
 //@ ensures [C10.sent] sends() == old(sends())+1
 //@ ensures [C10.final] result == nil ==> !s.messageLayer.CompletionCode.IsTemporary() && s.messageLayer.CompletionCode != 0xc0 && s.messageLayer.CompletionCode != 0xc3
@@ -54,24 +58,33 @@ package bmc
 //@ func (*V2Sessionless).buildAndSendPayload$1
 //@ props C05 C10
 //@ requires [conn.valid] !isnil(s) && !isnil(s.buffer) && !isnil(s.transport) && !isnil(s.decode) && !isnil(ctx) && bufValid(s.buffer)
+//@ requires [inv.conn] connValid(s)
+//@ ensures [inv.conn] connValid(s)
 //@ ensures [C10.sent] sends() == old(sends())+1
 
 // ---- v2sessionless.go / v2session.go: the functions that build the packet around the retry loop
 
 //@ func (*V2Sessionless).buildAndSendCommand
 //@ props C05 C09 C10 C06
-//@ requires [conn.valid] !isnil(s) && !isnil(s.buffer) && !isnil(s.transport) && !isnil(c) && !isnil(s.decode) && !isnil(ctx) && !isnil(s.backoff) && bufSmall(s.buffer)
+//@ requires [conn.valid] !isnil(s) && !isnil(s.buffer) && !isnil(s.transport) && !isnil(c) && !isnil(s.decode) && !isnil(ctx) && !isnil(s.backoff)
 //@ at SerializeLayers assert [C09.null-wrapper] s.v2SessionLayer.ID == 0 && s.v2SessionLayer.Sequence == 0 && !s.v2SessionLayer.Encrypted && !s.v2SessionLayer.Authenticated &&
 //@    s.v2SessionLayer.PayloadDescriptor == ipmi.PayloadDescriptorIPMI
 //@ at SerializeLayers assert [C06+C10.message] s.messageLayer.Operation == *c.Operation() && s.messageLayer.RemoteAddress == 0x20 && s.messageLayer.RemoteLUN == c.RemoteLUN() &&
 //@    s.messageLayer.LocalAddress == 0x81 && s.messageLayer.Sequence == 1 && s.messageLayer.CompletionCode == 0
 //@ at SerializeLayers assert [C06.rmcp] s.rmcpLayer.Version == 6 && s.rmcpLayer.Sequence == 0xff && s.rmcpLayer.Class == 7 && !s.rmcpLayer.Ack
+//@ ensures [inv.conn] connValid(s)
+
+//@ func (*V2Sessionless).SendCommand
+//@ props C05 C18
+//@ requires [conn.valid] !isnil(s) && !isnil(s.buffer) && !isnil(s.transport) && !isnil(c) && !isnil(s.decode) && !isnil(ctx) && !isnil(s.backoff)
+//@ ensures [inv.conn] connValid(s)
 
 //@ func (*V2Sessionless).buildAndSendPayload
 //@ props C05 C09 C10 C06
-//@ requires [conn.valid] !isnil(s) && !isnil(s.buffer) && !isnil(s.transport) && !isnil(p) && !isnil(s.decode) && !isnil(ctx) && !isnil(s.backoff) && bufSmall(s.buffer)
+//@ requires [conn.valid] !isnil(s) && !isnil(s.buffer) && !isnil(s.transport) && !isnil(p) && !isnil(s.decode) && !isnil(ctx) && !isnil(s.backoff)
 //@ at SerializeLayers assert [C09.null-wrapper] s.v2SessionLayer.ID == 0 && s.v2SessionLayer.Sequence == 0 && !s.v2SessionLayer.Encrypted && !s.v2SessionLayer.Authenticated &&
 //@    s.v2SessionLayer.PayloadDescriptor == *p.Descriptor()
+//@ ensures [inv.conn] connValid(s)
 //@ at SerializeLayers assert [C06.rmcp] s.rmcpLayer.Version == 6 && s.rmcpLayer.Sequence == 0xff && s.rmcpLayer.Class == 7 && !s.rmcpLayer.Ack
 
 //@ func (*V2Session).buildAndSend
@@ -133,3 +146,270 @@ package bmc
 //@ requires [reader.valid] !isnil(r) && !isnil(s) && !isnil(r.linearReader) && !isnil(r.lineariser) && (holdsFunc(r.lineariser, "math.Log") || holdsFunc(r.lineariser, "math.Log10") || holdsFunc(r.lineariser, "math.Log2") || holdsFunc(r.lineariser, "math.Exp") || holdsFunc(r.lineariser, "math.Exp2") || holdsFunc(r.lineariser, "math.Sqrt") || holdsFunc(r.lineariser, "github.com/gebn/bmc/pkg/ipmi.init@linearisation.go#1") || holdsFunc(r.lineariser, "github.com/gebn/bmc/pkg/ipmi.init@linearisation.go#2") || holdsFunc(r.lineariser, "github.com/gebn/bmc/pkg/ipmi.init@linearisation.go#3") || holdsFunc(r.lineariser, "github.com/gebn/bmc/pkg/ipmi.init@linearisation.go#4") || holdsFunc(r.lineariser, "github.com/gebn/bmc/pkg/ipmi.init@linearisation.go#5")) && (holdsFunc(r.linearReader.parser, "github.com/gebn/bmc/pkg/ipmi.parseAnalogDataFormatUnsigned") || holdsFunc(r.linearReader.parser, "github.com/gebn/bmc/pkg/ipmi.parseAnalogDataFormatOnesComplement") || holdsFunc(r.linearReader.parser, "github.com/gebn/bmc/pkg/ipmi.parseAnalogDataFormatTwosComplement"))
 //@ ensures [C15.lread-flags] result1 == nil ==> !r.linearReader.readingCmd.Rsp.ReadingUnavailable && r.linearReader.readingCmd.Rsp.ScanningEnabled
 //@ ensures [C15.lread-value] result1 == nil ==> result0 == r.lineariser.Linearise(r.linearReader.factors.ConvertReading(r.linearReader.parser.Parse(r.linearReader.readingCmd.Rsp.Reading)))
+
+// ---- authenticator.go: RAKP key derivation (IPMI v2.0 13.28, 13.31, 13.32)
+//
+// The spec functions below are the handshake of the specification in
+// deductive form: each names the bytes hashed, in order, over the hash ghost
+// (hAbsorb* / hIsDigest, see the prelude). Role_M is the whole byte of RAKP
+// Message 1: requested privilege in bits 3:0, bit 4 set for name-only lookup.
+
+func specRole(m *ipmi.RAKPMessage1) uint8 {
+	r := uint8(m.MaxPrivilegeLevel)
+	if !m.PrivilegeLevelLookup {
+		r |= 1 << 4
+	}
+	return r
+}
+
+func specLE32(st int, v uint32) int {
+	return hAbsorbByte(hAbsorbByte(hAbsorbByte(hAbsorbByte(st, uint8(v)), uint8(v>>8)), uint8(v>>16)), uint8(v>>24))
+}
+
+// specUser: Role_M, ULength_M, UName_M
+func specUser(st int, m *ipmi.RAKPMessage1) int {
+	return hAbsorbStr(hAbsorbByte(hAbsorbByte(st, specRole(m)), uint8(len(m.Username))), m.Username)
+}
+
+// SIK = HMAC_KG(R_M | R_C | Role_M | ULength_M | UName_M)  (13.31)
+func specSIKInput(st int, m1 *ipmi.RAKPMessage1, m2 *ipmi.RAKPMessage2) int {
+	return specUser(hAbsorb(hAbsorb(st, m1.RemoteConsoleRandom[:]), m2.ManagedSystemRandom[:]), m1)
+}
+
+// RAKP 2 AuthCode = HMAC_Kuid(SID_M | SID_C | R_M | R_C | GUID_C | Role_M | ULength_M | UName_M)  (13.28 / 13.31)
+func specRAKP2Input(st int, m1 *ipmi.RAKPMessage1, m2 *ipmi.RAKPMessage2) int {
+	return specUser(hAbsorb(hAbsorb(hAbsorb(specLE32(specLE32(st, m2.RemoteConsoleSessionID), m1.ManagedSystemSessionID), m1.RemoteConsoleRandom[:]), m2.ManagedSystemRandom[:]), m2.ManagedSystemGUID[:]), m1)
+}
+
+// RAKP 3 AuthCode = HMAC_Kuid(R_C | SID_M | Role_M | ULength_M | UName_M)
+func specRAKP3Input(st int, m1 *ipmi.RAKPMessage1, m2 *ipmi.RAKPMessage2) int {
+	return specUser(specLE32(hAbsorb(st, m2.ManagedSystemRandom[:]), m2.RemoteConsoleSessionID), m1)
+}
+
+// RAKP 4 ICV = HMAC_SIK(R_M | SID_C | GUID_C)
+func specRAKP4Input(st int, m1 *ipmi.RAKPMessage1, m2 *ipmi.RAKPMessage2) int {
+	return hAbsorb(specLE32(hAbsorb(st, m1.RemoteConsoleRandom[:]), m1.ManagedSystemSessionID), m2.ManagedSystemGUID[:])
+}
+
+//@ func calculateSIK
+//@ props C01
+//@ assigns hashstate(h)
+//@ requires [hash.args] !isnil(h) && !isnil(rakpMessage1) && !isnil(rakpMessage2)
+//@ ensures [C01.sik-input] hIsDigest(result, old(specSIKInput(hState(h), rakpMessage1, rakpMessage2))) && len(result) == hSizeOf(h)
+//@ ensures [C01.sik-reset] hState(h) == hInit(h)
+
+//@ func calculateRAKPMessage2AuthCode
+//@ props C01 C02
+//@ assigns hashstate(h)
+//@ requires [hash.args] !isnil(h) && !isnil(rakpMessage1) && !isnil(rakpMessage2)
+//@ ensures [C02.rakp2-input] hIsDigest(result, old(specRAKP2Input(hState(h), rakpMessage1, rakpMessage2))) && len(result) == hSizeOf(h)
+//@ ensures [C02.rakp2-reset] hState(h) == hInit(h)
+
+//@ func calculateRAKPMessage3AuthCode
+//@ props C01
+//@ assigns hashstate(h)
+//@ requires [hash.args] !isnil(h) && !isnil(rakpMessage1) && !isnil(rakpMessage2)
+//@ ensures [C01.rakp3-input] hIsDigest(result, old(specRAKP3Input(hState(h), rakpMessage1, rakpMessage2))) && len(result) == hSizeOf(h)
+//@ ensures [C01.rakp3-reset] hState(h) == hInit(h)
+
+//@ func calculateRAKPMessage4ICV
+//@ props C01 C02
+//@ assigns hashstate(h)
+//@ requires [hash.args] !isnil(h) && !isnil(rakpMessage1) && !isnil(rakpMessage2)
+//@ ensures [C02.rakp4-input] hIsDigest(result, old(specRAKP4Input(hState(h), rakpMessage1, rakpMessage2))) && len(result) == hSizeOf(h)
+//@ ensures [C02.rakp4-reset] hState(h) == hInit(h)
+
+//@ func executeHash
+//@ props C01 C03
+//@ assigns hashstate(h)
+//@ option nilable:h
+//@ ensures [C01.exec-nil] isnil(h) ==> isnil(result)
+//@ ensures [C01.exec-digest] !isnil(h) ==> hIsDigest(result, old(hAbsorb(hState(h), b))) && len(result) == hSizeOf(h) && hState(h) == hInit(h)
+
+// K_N = HMAC_SIK(N repeated 20 times) (13.32; the constant is 20 bytes for every algorithm, issue #49)
+func specAbsorb5(st int, b uint8) int {
+	return hAbsorbByte(hAbsorbByte(hAbsorbByte(hAbsorbByte(hAbsorbByte(st, b), b), b), b), b)
+}
+func specKInput(st int, n uint8) int {
+	return specAbsorb5(specAbsorb5(specAbsorb5(specAbsorb5(st, n), n), n), n)
+}
+
+//@ func additionalKeyMaterialGenerator.K
+//@ props C01
+//@ assigns hashstate(g.hash)
+//@ ensures [C01.k-nil] isnil(g.hash) ==> isnil(result)
+//@ ensures [C01.k-input] !isnil(g.hash) ==> hIsDigest(result, old(specKInput(hState(g.hash), uint8(n)))) && len(result) == hSizeOf(g.hash) && hState(g.hash) == hInit(g.hash)
+//@ invariant 0 [k.fill] 0 <= i && i <= 20 && len(constant) == 20 && forall(qk, 0, i, constant[qk] == uint8(n))
+//@ decreases 0 20 - i
+
+//@ func truncatedHash.Size
+//@ props C01
+//@ ensures [C01.trunc-size] result == t.length
+
+//@ func truncatedHash.Sum
+//@ props C01 C03
+//@ requires [trunc.inner] !isnil(t.Hash) && t.length >= 0 && t.length <= hSizeOf(t.Hash)
+//@ ensures [C01.trunc-sum] len(result) == len(b)+t.length && forall(qk, 0, len(b), result[qk] == old(b[qk])) && hIsDigest(result[len(b):], hState(t.Hash))
+
+// ---- authenticator.go / hasher.go / confidentiality.go: algorithm tables (IPMI v2.0 tables 13-17..13-19)
+
+//@ func (*authenticationAlgorithmParams).AuthCode
+//@ props C01 C02
+//@ assigns nothing
+//@ ensures [C01.authcode-hmac] !isnil(result) && hState(result) == hInit(result) && hInit(result) == hmacKeyedBy(g.hashGen, kuid) && hSizeOf(result) == hashLenBy(g.hashGen) && isPlainHash(result)
+
+//@ func (*authenticationAlgorithmParams).SIK
+//@ props C01
+//@ assigns nothing
+//@ ensures [C01.sik-hmac] !isnil(result) && hState(result) == hInit(result) && hInit(result) == hmacKeyedBy(g.hashGen, kg) && hSizeOf(result) == hashLenBy(g.hashGen) && isPlainHash(result)
+
+//@ func (*authenticationAlgorithmParams).K
+//@ props C01
+//@ assigns nothing
+//@ ensures [C01.k-hmac] !isnil(result) && hState(result) == hInit(result) && hInit(result) == hmacKeyedBy(g.hashGen, sik) && hSizeOf(result) == hashLenBy(g.hashGen) && isPlainHash(result)
+
+//@ func (*authenticationAlgorithmParams).ICV
+//@ props C01 C02
+//@ assigns nothing
+//@ ensures [C02.icv-nonnil] !isnil(result)
+//@ ensures [C02.icv-fresh] hState(result) == hInit(result)
+//@ ensures [C02.icv-hmac] hInit(result) == hmacKeyedBy(g.hashGen, sik)
+//@ ensures [C02.icv-len] hSizeOf(result) == ite(g.icvLength == 0, hashLenBy(g.hashGen), g.icvLength)
+
+//@ func algorithmAuthenticationHashGenerator
+//@ props C01 C02 C12
+//@ assigns nothing
+//@ ensures [C12.auth-domain] (result1 == nil) == (a == ipmi.AuthenticationAlgorithmHMACSHA1 || a == ipmi.AuthenticationAlgorithmHMACMD5 || a == ipmi.AuthenticationAlgorithmHMACSHA256)
+//@ ensures [C12.auth-refuse] result1 != nil ==> isnil(result0)
+//@ ensures [frame.auth-new] result1 == nil ==> isnewobj(result0)
+//@ ensures [C01.auth-sha1] a == ipmi.AuthenticationAlgorithmHMACSHA1 ==> !isnil(result0) && holdsFunc(result0.hashGen, "crypto/sha1.New") && result0.icvLength == 12
+//@ ensures [C01.auth-md5] a == ipmi.AuthenticationAlgorithmHMACMD5 ==> !isnil(result0) && holdsFunc(result0.hashGen, "crypto/md5.New") && result0.icvLength == 0
+//@ ensures [C01.auth-sha256] a == ipmi.AuthenticationAlgorithmHMACSHA256 ==> !isnil(result0) && holdsFunc(result0.hashGen, "crypto/sha256.New") && result0.icvLength == 16
+
+// K1 (integrity key) is the whole digest HMAC_SIK(0x01 x 20) of the authentication algorithm's hash.
+//@ func algorithmHasher
+//@ props C01 C03 C12
+//@ assigns hashstate(g.(additionalKeyMaterialGenerator).hash)
+//@ option dyn:g=github.com/gebn/bmc.additionalKeyMaterialGenerator
+//@ requires [hasher.keygen] !isnil(g.(additionalKeyMaterialGenerator).hash) && hState(g.(additionalKeyMaterialGenerator).hash) == hInit(g.(additionalKeyMaterialGenerator).hash)
+//@ ensures [C12.integ-domain] (result1 == nil) == (i == ipmi.IntegrityAlgorithmNone || i == ipmi.IntegrityAlgorithmHMACSHA196 || i == ipmi.IntegrityAlgorithmHMACMD5128 || i == ipmi.IntegrityAlgorithmHMACSHA256128)
+//@ ensures [C12.integ-none] (i == ipmi.IntegrityAlgorithmNone || result1 != nil) == isnil(result0)
+//@ ensures [C01.integ-sha1] i == ipmi.IntegrityAlgorithmHMACSHA196 ==> hSizeOf(result0) == 12 && hState(result0) == hInit(result0) &&
+//@    hInit(result0) == hmacKeyedDigest("crypto/sha1.New", old(specKInput(hState(g.(additionalKeyMaterialGenerator).hash), 1)), hSizeOf(g.(additionalKeyMaterialGenerator).hash))
+//@ ensures [C01.integ-md5] i == ipmi.IntegrityAlgorithmHMACMD5128 ==> hSizeOf(result0) == 16 && hState(result0) == hInit(result0) &&
+//@    hInit(result0) == hmacKeyedDigest("crypto/md5.New", old(specKInput(hState(g.(additionalKeyMaterialGenerator).hash), 1)), hSizeOf(g.(additionalKeyMaterialGenerator).hash))
+//@ ensures [C01.integ-sha256] i == ipmi.IntegrityAlgorithmHMACSHA256128 ==> hSizeOf(result0) == 16 && hState(result0) == hInit(result0) &&
+//@    hInit(result0) == hmacKeyedDigest("crypto/sha256.New", old(specKInput(hState(g.(additionalKeyMaterialGenerator).hash), 1)), hSizeOf(g.(additionalKeyMaterialGenerator).hash))
+//@ ensures [C01.integ-keygen] hState(g.(additionalKeyMaterialGenerator).hash) == hInit(g.(additionalKeyMaterialGenerator).hash)
+
+// K2 (confidentiality key): AES-128 uses the first 16 bytes of HMAC_SIK(0x02 x 20) (13.32).
+//@ func algorithmCipher
+//@ props C01 C03 C12
+//@ assigns hashstate(g.(additionalKeyMaterialGenerator).hash)
+//@ option dyn:g=github.com/gebn/bmc.additionalKeyMaterialGenerator
+//@ requires [cipher.keygen] !isnil(g.(additionalKeyMaterialGenerator).hash) && hState(g.(additionalKeyMaterialGenerator).hash) == hInit(g.(additionalKeyMaterialGenerator).hash) && hSizeOf(g.(additionalKeyMaterialGenerator).hash) >= 16
+//@ ensures [C12.conf-domain] (result1 == nil && !isnil(result0)) == (a == ipmi.ConfidentialityAlgorithmAESCBC128)
+//@ ensures [C12.conf-refuse] a != ipmi.ConfidentialityAlgorithmAESCBC128 ==> isnil(result0) && (a != ipmi.ConfidentialityAlgorithmNone ==> result1 != nil)
+//@ ensures [C01.conf-aes] a == ipmi.ConfidentialityAlgorithmAESCBC128 ==> dyntype(result0, "*github.com/gebn/bmc/pkg/ipmi.AES128CBC") && ipmi.SpecAESReady(result0.(*ipmi.AES128CBC)) &&
+//@    forall(qk, 0, 16, ipmi.SpecAESKeyByte(result0.(*ipmi.AES128CBC), qk) == hDigestByte(old(specKInput(hState(g.(additionalKeyMaterialGenerator).hash), 2)), qk))
+//@ ensures [C01.conf-keygen] hState(g.(additionalKeyMaterialGenerator).hash) == hInit(g.(additionalKeyMaterialGenerator).hash)
+
+// connValid: the representation invariant of a connection that every send path relies on and keeps.
+func connValid(s *V2Sessionless) bool {
+	return s.buffer != nil && s.transport != nil && s.decode != nil && s.backoff != nil
+}
+
+// ---- v2sessionless.go: the three request/response steps of the RMCP+ handshake (13.17-13.24)
+//
+// Each returns a response only if its message tag echoes the request's and
+// its status code is OK; it does not change the request it is given.
+
+//@ func (*V2Sessionless).openSession
+//@ ensures [inv.conn] connValid(s)
+//@ props C02 C12
+//@ requires [conn.valid] !isnil(s) && !isnil(s.buffer) && !isnil(s.transport) && !isnil(s.decode) && !isnil(ctx) && !isnil(s.backoff) && !isnil(r)
+//@ ensures [C02.open-ok] result1 == nil ==> !isnil(result0) && result0.Tag == r.Tag && result0.Status == ipmi.StatusCodeOK
+//@ ensures [C02.open-err] result1 != nil ==> isnil(result0)
+//@ ensures [frame.open-new] result1 == nil ==> isnewobj(result0)
+//@ ensures [frame.open-req] unchanged(*r)
+
+//@ func (*V2Sessionless).rakpMessage1
+//@ ensures [inv.conn] connValid(s)
+//@ props C02
+//@ requires [conn.valid] !isnil(s) && !isnil(s.buffer) && !isnil(s.transport) && !isnil(s.decode) && !isnil(ctx) && !isnil(s.backoff) && !isnil(r)
+//@ ensures [C02.rakp1-ok] result1 == nil ==> !isnil(result0) && result0.Tag == r.Tag && result0.Status == ipmi.StatusCodeOK
+//@ ensures [C02.rakp1-err] result1 != nil ==> isnil(result0)
+//@ ensures [frame.rakp1-new] result1 == nil ==> isnewobj(result0)
+//@ ensures [frame.rakp1-req] unchanged(*r)
+
+//@ func (*V2Sessionless).rakpMessage3
+//@ ensures [inv.conn] connValid(s)
+//@ props C02
+//@ requires [conn.valid] !isnil(s) && !isnil(s.buffer) && !isnil(s.transport) && !isnil(s.decode) && !isnil(ctx) && !isnil(s.backoff) && !isnil(r)
+//@ ensures [C02.rakp3-ok] result1 == nil ==> !isnil(result0) && result0.Tag == r.Tag && result0.Status == ipmi.StatusCodeOK
+//@ ensures [C02.rakp3-err] result1 != nil ==> isnil(result0)
+//@ ensures [frame.rakp3-new] result1 == nil ==> isnewobj(result0)
+//@ ensures [frame.rakp3-req] unchanged(*r)
+
+// ---- v2session_new.go: RMCP+ session establishment (13.17-13.32)
+
+func specHMACInit(a ipmi.AuthenticationAlgorithm, key []byte) int {
+	switch a {
+	case ipmi.AuthenticationAlgorithmHMACSHA1:
+		return hmacKeyed("crypto/sha1.New", key)
+	case ipmi.AuthenticationAlgorithmHMACSHA256:
+		return hmacKeyed("crypto/sha256.New", key)
+	}
+	return hmacKeyed("crypto/md5.New", key)
+}
+
+//@ func (*V2SessionlessTransport).newV2Session
+//@ props C01 C02 C12
+//@ requires [new.args] !isnil(s) && !isnil(s.V2Sessionless) && connValid(s.V2Sessionless) && !isnil(ctx) && !isnil(opts)
+//@ at rakpMessage1 assert [C12.confirm] openSessionRsp.AuthenticationPayload.Algorithm == cipherSuite.AuthenticationAlgorithm && openSessionRsp.IntegrityPayload.Algorithm == cipherSuite.IntegrityAlgorithm &&
+//@    openSessionRsp.ConfidentialityPayload.Algorithm == cipherSuite.ConfidentialityAlgorithm
+//@ at rakpMessage1 assert [C01.rakp1-sent] arg[*ipmi.RAKPMessage1](2).ManagedSystemSessionID == openSessionRsp.ManagedSystemSessionID && arg[*ipmi.RAKPMessage1](2).MaxPrivilegeLevel == opts.MaxPrivilegeLevel &&
+//@    arg[*ipmi.RAKPMessage1](2).PrivilegeLevelLookup == opts.PrivilegeLevelLookup && arg[*ipmi.RAKPMessage1](2).Username == opts.Username
+//@ at rakpMessage3 assert [C02.rakp2-code] len(rakpMessage2.AuthCode) == hashLenBy(hashGenerator.hashGen) &&
+//@    hIsDigest(rakpMessage2.AuthCode, specRAKP2Input(specHMACInit(openSessionRsp.AuthenticationPayload.Algorithm, opts.Password), rakpMessage1, rakpMessage2))
+//@ at rakpMessage3 assert [C01.rakp3-code] arg[*ipmi.RAKPMessage3](2).Status == ipmi.StatusCodeOK && arg[*ipmi.RAKPMessage3](2).ManagedSystemSessionID == openSessionRsp.ManagedSystemSessionID &&
+//@    hIsDigest(arg[*ipmi.RAKPMessage3](2).AuthCode, specRAKP3Input(specHMACInit(openSessionRsp.AuthenticationPayload.Algorithm, opts.Password), rakpMessage1, rakpMessage2))
+//@ ensures [C12.usable] result1 == nil ==> !isnil(result0) && !isnil(result0.confidentialityLayer) && !isnil(result0.v2ConnectionShared) && !isnil(result0.decode)
+//@ ensures [C12.algos] result1 == nil ==> result0.AuthenticationAlgorithm == openSessionRsp.AuthenticationPayload.Algorithm && result0.IntegrityAlgorithm == openSessionRsp.IntegrityPayload.Algorithm &&
+//@    result0.ConfidentialityAlgorithm == openSessionRsp.ConfidentialityPayload.Algorithm
+//@ ensures [C01.ids] result1 == nil ==> result0.LocalID == openSessionRsp.RemoteConsoleSessionID && result0.RemoteID == openSessionRsp.ManagedSystemSessionID
+//@ ensures [C01.sik-kg] result1 == nil && len(opts.KG) > 0 ==> len(result0.SIK) == hashLenBy(hashGenerator.hashGen) &&
+//@    hIsDigest(result0.SIK, specSIKInput(specHMACInit(result0.AuthenticationAlgorithm, opts.KG), rakpMessage1, rakpMessage2))
+//@ ensures [C01.sik-password] result1 == nil && len(opts.KG) == 0 ==> len(result0.SIK) == hashLenBy(hashGenerator.hashGen) &&
+//@    hIsDigest(result0.SIK, specSIKInput(specHMACInit(result0.AuthenticationAlgorithm, opts.Password), rakpMessage1, rakpMessage2))
+//@ at authenticationAlgorithmParams).K assert [C02.rakp4-icv] len(rakpMessage4.ICV) == ite(hashGenerator.icvLength == 0, hashLenBy(hashGenerator.hashGen), hashGenerator.icvLength) &&
+//@    hIsDigest(rakpMessage4.ICV, specRAKP4Input(hmacKeyedBy(hashGenerator.hashGen, sik), rakpMessage1, rakpMessage2))
+//@ ensures [C01.k1-sha1] result1 == nil && result0.IntegrityAlgorithm == ipmi.IntegrityAlgorithmHMACSHA196 ==> hSizeOf(result0.integrityAlgorithm) == 12 &&
+//@    hInit(result0.integrityAlgorithm) == hmacKeyedDigest("crypto/sha1.New", specKInput(hmacKeyedBy(hashGenerator.hashGen, sik), 1), hashLenBy(hashGenerator.hashGen))
+//@ ensures [C01.k1-md5] result1 == nil && result0.IntegrityAlgorithm == ipmi.IntegrityAlgorithmHMACMD5128 ==> hSizeOf(result0.integrityAlgorithm) == 16 &&
+//@    hInit(result0.integrityAlgorithm) == hmacKeyedDigest("crypto/md5.New", specKInput(hmacKeyedBy(hashGenerator.hashGen, sik), 1), hashLenBy(hashGenerator.hashGen))
+//@ ensures [C01.k1-sha256] result1 == nil && result0.IntegrityAlgorithm == ipmi.IntegrityAlgorithmHMACSHA256128 ==> hSizeOf(result0.integrityAlgorithm) == 16 &&
+//@    hInit(result0.integrityAlgorithm) == hmacKeyedDigest("crypto/sha256.New", specKInput(hmacKeyedBy(hashGenerator.hashGen, sik), 1), hashLenBy(hashGenerator.hashGen))
+//@ ensures [C01.k2-aes] result1 == nil ==> dyntype(result0.confidentialityLayer, "*github.com/gebn/bmc/pkg/ipmi.AES128CBC") && ipmi.SpecAESReady(result0.confidentialityLayer.(*ipmi.AES128CBC)) &&
+//@    forall(qk, 0, 16, ipmi.SpecAESKeyByte(result0.confidentialityLayer.(*ipmi.AES128CBC), qk) == hDigestByte(specKInput(hmacKeyedBy(hashGenerator.hashGen, sik), 2), qk))
+//@ ensures [C01.hashgen] result1 == nil ==> (result0.AuthenticationAlgorithm == ipmi.AuthenticationAlgorithmHMACSHA1 ==> holdsFunc(hashGenerator.hashGen, "crypto/sha1.New")) &&
+//@    (result0.AuthenticationAlgorithm == ipmi.AuthenticationAlgorithmHMACMD5 ==> holdsFunc(hashGenerator.hashGen, "crypto/md5.New")) &&
+//@    (result0.AuthenticationAlgorithm == ipmi.AuthenticationAlgorithmHMACSHA256 ==> holdsFunc(hashGenerator.hashGen, "crypto/sha256.New"))
+//@ ensures [C01.sik-stored] result1 == nil ==> window(result0.SIK, sik, 0, len(sik))
+
+//@ func RetrieveSupportedCipherSuites
+//@ props C12
+//@ invariant 0 [inv.loop-a] connValid(s.V2Sessionless)
+//@ invariant 0 [inv.loop-b] s.V2Sessionless == old(s.V2Sessionless)
+//@ invariant 0 [inv.loop-c] !isnil(s.V2Sessionless)
+//@ requires [conn.valid] !isnil(s) && !isnil(s.V2Sessionless) && connValid(s.V2Sessionless) && !isnil(ctx)
+//@ ensures [inv.conn] connValid(s.V2Sessionless) && s.V2Sessionless == old(s.V2Sessionless)
+//@ ensures [C16.no-partial] result1 != nil ==> len(result0) == 0
+
+//@ func (*V2SessionlessTransport).determineCipherSuite
+//@ props C12
+//@ requires [conn.valid] !isnil(s) && !isnil(s.V2Sessionless) && connValid(s.V2Sessionless) && !isnil(ctx)
+//@ ensures [inv.conn] connValid(s.V2Sessionless) && s.V2Sessionless == old(s.V2Sessionless)
+//@ ensures [C12.nonnil] (result1 == nil) == !isnil(result0)
+//@ ensures [C12.single] len(desiredSuites) == 1 ==> result1 == nil && result0 == &desiredSuites[0]
+//@ ensures [C12.single-nodiscovery] len(desiredSuites) == 1 ==> sends() == old(sends())
